@@ -102,7 +102,12 @@ def run(ctx):
                     return items
                 t = shuf(c)
                 try:
-                    out = orderer.order_config(cases.tree(t))
+                    if len(recs) % 5 == 0:
+                        # what `annet gen` prints: the production worker orders the generated configuration and renders it; read back,
+                        # that text is the ordered tree judged here
+                        out = gen_worker_tree(cat, rb, cases.tree(t))
+                    else:
+                        out = orderer.order_config(cases.tree(t))
                     out2 = orderer.order_config(out)
                 except Exception as e:
                     recs.append({"id": "%s-%s-c%d" % (prof, cat.names[k - 1], len(recs)), "kind": "config", "rb": k, "ord": oi, "t": t, "out": [], "out2": [], "exc": repr(e)})
@@ -252,6 +257,29 @@ def run(ctx):
                 exercised += 1
                 ctx.nontrivial(json.dumps(["deps", rec["fact"], rec["cmds"]]))
     ctx.cov["documented_dependency_checks"] = exercised
+
+
+def gen_worker_tree(cat, rb, new):
+    """annet.gen.worker on an OldNewResult holding `new` (with the catalogue rulebook served for the device): its text parsed back"""
+    import types
+    from annet import gen as anngen
+    from annet.annlib import tabparser
+    from annet.types import OldNewResult
+    from annet.rulebook import rulebook_provider_connector
+    from .c03 import _OneRulebook
+    saved_on, saved_p = anngen.old_new, getattr(rulebook_provider_connector, "_cache", None)
+    res = OldNewResult(device=cat.device, new=new, acl_rules={"local": {"x": 1}, "global": {}})
+    anngen.old_new = lambda *a, **k: iter([res])
+    rulebook_provider_connector._cache = _OneRulebook(rb)
+    try:
+        args = types.SimpleNamespace(annotate=False, acl_safe=False, indent="  ")
+        outs = list(anngen.worker(1, args, None, None, None))
+    finally:
+        anngen.old_new = saved_on
+        rulebook_provider_connector._cache = saved_p
+    if len(outs) != 1:
+        raise RuntimeError("annet gen printed %d texts for one device" % len(outs))
+    return tabparser.parse_to_tree(outs[0][1], cat.formatter.split)
 
 
 def signature_of(rec, clause):
